@@ -78,6 +78,43 @@ theorem per_connection_reset (cfg : Cfg) (script : List Ev)
   generalize (run (init cfg) script).1 = s at hred
   simp [negView, init, hred]
 
+/-- SASL + classic bind on a server that advertises client state indication -/
+def flowSaslBindCsi0 : List Ev :=
+  [.recv (.header true true), .recv (.features { mechs := some .plain }), .recv (.saslSuccess true),
+   .recv (.header true true), .recv (.features { bind := true, csi := true }), .recv (.iq (.bindResult .ok))]
+
+/-- **The fields `handleStart` does not reset (`bindAvail`, `smAvail`, `csiAvail`) are written on the connection that uses
+them — any history, any event.**  `EL` = the listeners from which a session can be opened without a further features element
+(bind, enable, resume, and the two XEP-0078 ones).  (1) A step that enters `EL` has written the fields: it received a features
+element and `csiAvail` — and, for the bind / enable / resume listeners, `bindAvail` and `smAvail`, the two fields those
+listeners read — hold exactly what it advertised, or it received a version-less header and `csiAvail` is false.  Since
+`per_connection_reset` puts the listener back to idle (not in `EL`), nothing of an earlier connection is read there.
+(2) A session is only ever opened by the idle listener on a features element (which stores the fields first, in the same
+step), from an `EL` listener, or — the stated exception — by a SASL2 success carrying `<resumed/>`: an inline-resumed
+session deliberately keeps the CSI availability of the session it resumes. -/
+theorem avail_fields_written_before_use (cfg : Cfg) (script : List Ev) (e : Ev) :
+    (¬ EL (run (init cfg) script).1.listener → EL (step (run (init cfg) script).1 e).1.listener →
+      (∃ f, e = .recv (.features f) ∧ Wrote f (step (run (init cfg) script).1 e).1) ∨
+      (∃ i, e = .recv (.header false i) ∧ (step (run (init cfg) script).1 e).1.listener = .nonSaslFields ∧
+        (step (run (init cfg) script).1 e).1.csiAvail = false)) ∧
+    (nC (step (run (init cfg) script).1 e).2 ≠ 0 →
+      (∃ f, e = .recv (.features f) ∧ (run (init cfg) script).1.listener = .idle) ∨
+      EL (run (init cfg) script).1.listener ∨ (∃ b tok p, e = .recv (.s2Success b .resumed tok p))) :=
+  ⟨el_entered_only_by_a_write _ e, session_opened_from _ e⟩
+
+/-- the two former stale-CSI witnesses: after a session on a server that advertised CSI, a legacy login (version-less header,
+or XEP-0078 offered as a feature) no longer sends the client state -/
+example :
+    let cfg : Cfg := { plainOk := true, inactive := true }
+    let first : List Ev := [.connectToServer, .socketConnected] ++ flowSaslBindCsi0 ++ cutAndReconnect
+    .sent .csiInactive .clear ∈ (run (init cfg) first).2 ∧
+    nC (run (run (init cfg) first).1 flowLegacy).2 = 1 ∧
+    .sent .csiInactive .clear ∉ (run (run (init cfg) first).1 flowLegacy).2 ∧
+    .sent .csiInactive .clear ∉ (run (run (init cfg) first).1
+      [.recv (.header true true), .recv (.features { legacyAuth := true }), .recv (.iq (.authFields true true)),
+       .recv (.iq (.authResult true))]).2 := by
+  decide
+
 /-- SASL2 with bind2, cut right after `<success><bound/></success>` (the former witness of the `bind2Bound` leak) -/
 def witnessBind2Cut : List Ev :=
   [.connectToServer, .socketConnected, .recv (.header true true),
